@@ -45,6 +45,10 @@ pub struct Case {
     /// PROXY protocol enabled (every client sends a header first)
     #[serde(default)]
     pub proxy: bool,
+    /// the whole application instead of a Listener built by the harness: a passage child process (configuration
+    /// through the layers), stopped the way an operator stops it (SIGINT)
+    #[serde(default)]
+    pub via_start: Option<crate::layers::LayerPlan>,
 }
 
 pub struct C17;
@@ -80,7 +84,122 @@ fn await_transfer(c: &mut NetClient) -> Result<(), String> {
     }
 }
 
+/// the application as a whole: in-flight clients of a passage child process still complete after SIGINT, clients
+/// that connect afterwards are not served, and the process ends by itself
+fn decide_start(case: &Case, plan: &crate::layers::LayerPlan, info: &mut CaseInfo) -> Verdict {
+    info.class("whole_application_stopped_by_sigint");
+    info.nontrivial = true;
+    let port = net::free_port();
+    let cfg = serde_json::json!({
+        "address": format!("127.0.0.1:{port}"),
+        "timeout": 4,
+        "adapters": {
+            "discovery": {"fixed": {"targets": [{"identifier": "only", "address": "10.1.2.3:25566", "meta": {}}]}},
+            "filter": [],
+            "strategy": "any",
+            "authentication": {"fixed": {"profile": {"id": "11111111-2222-3333-4444-555555555555", "name": "C17", "properties": []}}},
+        }
+    });
+    let mut inst = match crate::layers::start(&cfg, plan).or_else(|_| crate::layers::start(&cfg, plan)) {
+        Ok(i) => i,
+        Err(e) => return Verdict::Inconclusive(format!("instance did not start: {e}")),
+    };
+    // in-flight clients: accepted only / status request answered / Encryption Request received
+    let mut clients: Vec<(usize, Client)> = Vec::new();
+    for (i, p) in case.inflight.iter().enumerate().take(6) {
+        let Ok(mut c) = NetClient::connect(port) else { return Verdict::Inconclusive("connect failed before shutdown".into()) };
+        let r: Result<Client, String> = (|| match p {
+            Progress::MidStatus => {
+                c.phase = crate::refcodec::Phase::Status;
+                c.send(&Pkt::Handshake { protocol: 770, host: "h".into(), port: 25565, next: 1 }).map_err(|e| e.to_string())?;
+                c.send(&Pkt::StatusRequest).map_err(|e| e.to_string())?;
+                match c.recv(T) {
+                    Ok(Pkt::StatusResponse { .. }) => Ok(Client::Status(c)),
+                    other => Err(format!("status response missing: {other:?}")),
+                }
+            }
+            Progress::MidLogin | Progress::WaitingBackend => {
+                c.send(&Pkt::Handshake { protocol: 770, host: "h".into(), port: 25565, next: 2 }).map_err(|e| e.to_string())?;
+                c.send(&Pkt::LoginStart { name: "InFlight".into(), uuid: uuid::Uuid::from_u128(17) }).map_err(|e| e.to_string())?;
+                loop {
+                    match c.recv(T) {
+                        Ok(Pkt::LoginCookieRequest { key }) => c.send(&Pkt::LoginCookieResponse { key, payload: None }).map_err(|e| e.to_string())?,
+                        Ok(Pkt::EncryptionRequest { .. }) => return Ok(Client::Login(c)),
+                        other => return Err(format!("{other:?}")),
+                    }
+                }
+            }
+            _ => Ok(Client::Fresh(c)),
+        })();
+        match r {
+            Ok(cl) => clients.push((i, cl)),
+            Err(e) => return Verdict::Inconclusive(format!("setup before shutdown failed: {e}")),
+        }
+    }
+    std::thread::sleep(Duration::from_millis(20));
+    // ---- the operator stops the application
+    inst.interrupt();
+    let stopped_at = Instant::now();
+    std::thread::sleep(Duration::from_millis(60));
+    // a client that connects now must not be served
+    let mut late_served = None;
+    for i in 0..case.late.min(3) {
+        if let Ok(mut c) = NetClient::connect(port) {
+            let r = c.status_exchange("late.example.org", Duration::from_millis(300));
+            if c.received > 0 || r.is_ok() {
+                late_served = Some(format!("late client #{i} (connected 60 ms after SIGINT) received {} bytes: {:?}", c.received, r));
+            }
+        }
+    }
+    // the in-flight clients go on
+    let mut failure = None;
+    for (i, cl) in clients {
+        let r: Result<(), String> = match cl {
+            Client::Fresh(mut c) => c.status_exchange("fresh.example.org", T).map_err(|e| format!("status exchange of an accepted connection failed: {e:?}")),
+            Client::Status(mut c) => {
+                let _ = c.send(&Pkt::StatusPing { payload: 9 });
+                match c.recv(T) {
+                    Ok(Pkt::StatusPong { payload: 9 }) => Ok(()),
+                    other => Err(format!("pong missing: {other:?}")),
+                }
+            }
+            Client::Login(mut c) => (|| {
+                let secret16: [u8; 16] = *b"net-shared-secre";
+                let (key, token, _) = c.enc_req.clone().ok_or("no encryption request")?;
+                let key = crate::refcrypto::RsaPub::from_spki_der(&key).ok_or("key")?;
+                c.send(&Pkt::EncryptionResponse { secret: key.encrypt_pkcs1(&secret16, &[7]).unwrap(), token: key.encrypt_pkcs1(&token, &[7]).unwrap() }).map_err(|e| e.to_string())?;
+                c.enable_encryption(&secret16);
+                match c.recv(T) {
+                    Ok(Pkt::LoginSuccess { .. }) => {}
+                    other => return Err(format!("login success missing: {other:?}")),
+                }
+                finish_login(&mut c)?;
+                await_transfer(&mut c)
+            })(),
+            _ => Ok(()),
+        };
+        if let Err(e) = r {
+            failure.get_or_insert(format!("in-flight client #{i} ({:?}): {e}", case.inflight[i]));
+        }
+    }
+    let exited = inst.wait_exit(Duration::from_secs(8));
+    info.class(format!("inflight:{}", case.inflight.len().min(6)));
+    if let Some(l) = late_served {
+        return Verdict::Fail { sig: "late-connection-served".into(), msg: format!("{l} [{}]", inst.description) };
+    }
+    if let Some(f) = failure {
+        return Verdict::Fail { sig: "inflight-connection-not-completed".into(), msg: format!("after SIGINT to the application: {f} [{}]", inst.description) };
+    }
+    if exited.is_none() {
+        return Verdict::Fail { sig: "application-did-not-stop".into(), msg: format!("{:?} after SIGINT and after every in-flight client had finished, the process was still running", stopped_at.elapsed()) };
+    }
+    Verdict::Pass
+}
+
 fn decide(case: &Case, info: &mut CaseInfo) -> Verdict {
+    if let Some(plan) = &case.via_start {
+        return decide_start(case, plan, info);
+    }
     let late_header = case.proxy && case.inflight.iter().any(|p| matches!(p, Progress::BeforeProxyHeader(_)));
     // the header phase and the protocol phase each get the connection timeout; keep it short when a client uses both
     let timeout = if late_header { Duration::from_millis(1500) } else { Duration::from_secs(4) };
@@ -336,8 +455,8 @@ impl Check for C17 {
     }
     fn strategy(&self, _tier: Tier) -> BoxedStrategy<Case> {
         let progress = prop_oneof![2 => Just(Progress::JustAccepted), 2 => Just(Progress::MidStatus), 4 => Just(Progress::MidLogin), 6 => Just(Progress::WaitingBackend), 1 => (200u8..=255).prop_map(Progress::BeforeProxyHeader)];
-        (50u64..300, proptest::collection::vec(progress, 0..=8), 1u8..=6, prop_oneof![3 => Just(0u32), 2 => 1u32..300, 1 => 300u32..5000], prop_oneof![2 => Just(1u8), 1 => 2u8..=4], prop_oneof![1 => Just(0u8), 2 => 1u8..=6], prop::bool::weighted(0.4))
-            .prop_map(|(discovery_ms, mut inflight, late, late_gap_us, workers, busy, proxy)| {
+        (50u64..300, proptest::collection::vec(progress, 0..=8), 1u8..=6, prop_oneof![3 => Just(0u32), 2 => 1u32..300, 1 => 300u32..5000], prop_oneof![2 => Just(1u8), 1 => 2u8..=4], prop_oneof![1 => Just(0u8), 2 => 1u8..=6], prop::bool::weighted(0.4), proptest::option::weighted(0.08, crate::layers::plan_strategy()))
+            .prop_map(|(discovery_ms, mut inflight, late, late_gap_us, workers, busy, proxy, via_start)| {
                 // at most two clients with an outstanding header (each costs a second of real time)
                 let mut seen = 0;
                 inflight.retain(|p| {
@@ -348,7 +467,7 @@ impl Check for C17 {
                         true
                     }
                 });
-                Case { discovery_ms, inflight, late, late_gap_us, workers, busy, proxy }
+                Case { discovery_ms, inflight, late, late_gap_us, workers, busy, proxy, via_start }
             })
             .boxed()
     }
